@@ -151,6 +151,18 @@ func runC15(c C15Case) (c15Stats, error) {
 			if _, ok := cache[name]; ok {
 				changed[name] = true
 			}
+		case "registerSame":
+			// the source that is cached from a loader is registered again, unchanged: from then
+			// on the name holds a registration (it no longer follows the loader)
+			ent, ok := cache[name]
+			if !cacheOn || !ok || ent.loader < 0 {
+				continue
+			}
+			if err := e.RegisterString(name, fmt.Sprintf("v%d", ent.version)); err != nil {
+				return st, fmt.Errorf("op %d: RegisterString failed: %v", i, err)
+			}
+			cache[name] = c15Cached{version: ent.version, loader: -1}
+			registered[name] = true
 		case "renderHeld":
 			// a template handle obtained earlier from Load keeps rendering what it rendered then,
 			// whatever the cache settings are now, and rendering it changes nothing for later reads
@@ -342,6 +354,9 @@ func keysOf(m map[int]bool) []int {
 }
 
 func genC15Op(t *rapid.T) C15Op {
+	if rapid.IntRange(0, 14).Draw(t, "registersame") == 0 {
+		return C15Op{Op: "registerSame", Name: rapid.IntRange(0, 2).Draw(t, "name")}
+	}
 	if rapid.IntRange(0, 9).Draw(t, "renderheld") == 0 {
 		return C15Op{Op: "renderHeld", Loader: rapid.IntRange(0, 7).Draw(t, "which")}
 	}
@@ -377,7 +392,7 @@ func genC15Op(t *rapid.T) C15Op {
 	return op
 }
 
-const c15Rule = "histories of 10-40 (thorough 200) operations on one engine with three loaders in registration order (timestamp-aware, plain, timestamp-aware; in-memory with read counters): SetCache, SetAutoReload, SetDevelopmentMode, RegisterString, source changes with strictly increasing timestamps, timestamp changes without a content change, removals, Load / Render / RenderTo of 3 names and of an absent name, renders of template handles kept from earlier Loads; sources are version markers so the served version is read off the output; non-trivial = a read of a name whose source changed or was re-registered after it had been cached; distinct by operation list"
+const c15Rule = "histories of 10-40 (thorough 200) operations on one engine with three loaders in registration order (timestamp-aware, plain, timestamp-aware; in-memory with read counters): SetCache, SetAutoReload, SetDevelopmentMode, RegisterString (new sources, and the unchanged source of a template cached from a loader), source changes with strictly increasing timestamps, timestamp changes without a content change, removals, Load / Render / RenderTo of 3 names and of an absent name, renders of template handles kept from earlier Loads; sources are version markers so the served version is read off the output; non-trivial = a read of a name whose source changed or was re-registered after it had been cached; distinct by operation list"
 
 func TestC15Cache(t *testing.T) {
 	r := NewRec(t, "C15", c15Rule)
@@ -545,6 +560,12 @@ func runC15FS(c C15FSCase) (bool, error) {
 			}
 			os.Chtimes(path, time.Unix(clock, 0), time.Unix(clock, 0))
 			files[rt][name] = ent{version, clock, rt}
+		case "loadall":
+			// CompiledLoader.LoadAll on the running engine: whatever it preloads, later reads follow
+			// the same rules (the loader is timestamp-aware)
+			if c.Compiled {
+				guard(func() (string, error) { return "", twig.NewCompiledLoader(roots[0]).LoadAll(e) })
+			}
 		case "rewrite":
 			// new content, old modification time (a change the timestamp does not show)
 			if it, ok := files[rt][name]; ok {
@@ -675,7 +696,9 @@ func TestC15Files(t *testing.T) {
 			if rapid.IntRange(0, 2).Draw(rt, "fewnames") == 0 {
 				op.Name = op.Name % 2 // concentrate on two names so that both search paths hold the same name
 			}
-			switch k := rapid.IntRange(0, 13).Draw(rt, "kind"); {
+			switch k := rapid.IntRange(0, 14).Draw(rt, "kind"); {
+			case k == 14:
+				op.Op = "loadall"
 			case k == 13:
 				op.Op = "rewrite"
 			case k == 12:
